@@ -268,6 +268,13 @@ class BaseEngine(abc.ABC):
         prev = self.run_progs[-1] if self.run_progs else None  # previous program segment
         for p in program:
 
+            if isinstance(p, TDMProgram) and p.is_unrolled:
+                # A program received in an unrolled form is brought into the form requested for
+                # this run before it is compiled: (un)rolling the compiled copy would start again
+                # from the uncompiled rolled circuit.
+                p = p._linked_copy()  # pylint: disable=protected-access
+                self.get_tdm_options(p, **kwargs)
+
             if self.backend.compiler:
                 default_compiler = getattr(
                     compile_options.get("device"), "default_compiler", self.backend.compiler
